@@ -1,6 +1,15 @@
 (* C09 — After stop() the callback is never invoked again and the listener returns. *)
-From MIO Require Import Base Gen Node NodeProofs.
+From MIO Require Import Base Gen Node NodeProofs NodeTerm.
 Local Open Scope N_scope.
+
+(* what the termination argument assumes about node.rs, re-read from the source on every run: every
+   blocking wait of the listener loops is bounded by SAMPLING_TIMEOUT (so `poll` and `signal wait`
+   are steps that always complete), each is the first action of a loop whose condition re-reads the
+   flag, and stop() clears the flag *)
+Theorem C09_gen_obligation :
+  NODE_WAITS_BOUNDED_BY_SAMPLING_TIMEOUT = true /\ NODE_WAITS_AT_LOOP_HEADS_THAT_READ_THE_FLAG = true /\
+  NODE_STOP_CLEARS_RUNNING = true /\ SAMPLING_TIMEOUT_MS <= 1000.
+Proof. repeat split; vm_compute; try reflexivity; discriminate. Qed.
 
 (* stop() called from inside callback invocation k (by whichever thread runs it, in any listener
    mode, whatever is queued, polled or cached): in every accepted run no callback entry follows *)
@@ -21,6 +30,41 @@ Theorem C09_no_enter_after_stop : forall (m : lmode) (ls : list nlabel) (s : nst
   nrun (ninit m) ls = Some s -> stopped_in_cb s = true \/ stopped_before s = true -> nstep s (LCbEnter t) = None.
 Proof. intros m ls s t H. apply no_enter_after_stop. eapply Inv_reachable; eauto. Qed.
 
+(* "The listener returns": from ANY reachable state in which the node is stopped and the listener
+   call has begun, every sequence of actions of the listener threads (anything except further
+   stop() calls) is bounded: by a constant budget mu of the state plus three steps (lock, check,
+   unlock) per event of the at most ONE poll that can still happen ... *)
+Theorem C09_stop_terminates : forall (m : lmode) (l0 ls : list nlabel) (s s' : nstate),
+  nrun (ninit m) l0 = Some s -> running s = false -> caching s = false ->
+  forallb progress ls = true -> nrun s ls = Some s' ->
+  (length ls + mu s' <= mu s + polled ls)%nat /\ (npolls ls <= polls_left s)%nat /\ running s' = false.
+Proof. intros m l0 ls s s' H0. apply stop_terminates. eapply Inv_reachable; eauto. Qed.
+
+(* ... and until both threads are through, some such action is enabled: a callback that was entered
+   can return, a thread waiting for the callback lock waits for a thread that can move, a wait in
+   poll / signal reception completes. So the threads end, and the listener call (which joins them)
+   returns. *)
+Theorem C09_stopped_not_stuck : forall (m : lmode) (l0 : list nlabel) (s : nstate),
+  nrun (ninit m) l0 = Some s -> caching s = false -> ~ finished s ->
+  exists l s', progress l = true /\ nstep s l = Some s'.
+Proof. intros m l0 s H0. apply stopped_not_stuck. eapply Inv_reachable; eauto. Qed.
+
+(* non-vacuity: stop() from the signal callback while the network thread holds a polled batch of
+   three events and waits for the lock: budget 3*2+4 + 4 = 14, at most 0 further polls; the run to
+   the end takes 13 thread actions and delivers nothing more *)
+Example C09_terminates_example :
+  match nrun (ninit Async) [LStart; LReplayEmpty; LLoopCheck TNet; LPoll [1; 2; 3]; LLoopCheck TSig; LSigRecv (Some 0); LLock TSig;
+                            LCheck TSig; LCbEnter TSig; LCbStop TSig] with
+  | Some s => running s = false /\ caching s = false /\ mu s = 14%nat /\ polls_left s = 0%nat /\
+              match nrun s [LCbExit TSig; LUnlock TSig; LLoopCheck TSig; LLock TNet; LCheck TNet; LUnlock TNet; LLock TNet; LCheck TNet;
+                            LUnlock TNet; LLock TNet; LCheck TNet; LUnlock TNet; LLoopCheck TNet] with
+              | Some s' => pc_net s' = Done /\ pc_sig s' = Done /\ length (delivered s') = 1%nat
+              | None => False
+              end
+  | None => False
+  end.
+Proof. vm_compute. repeat split. Qed.
+
 (* the former defect: a cached event was still replayed after a stop (both modes) — now rejected *)
 Example C09_replay_after_stop_rejected :
   nrun (ninit Sync) [LCachePoll [1; 2]; LExtStop; LStart; LReplayPop; LCheck TNet; LCbEnter TNet] = None /\
@@ -28,6 +72,9 @@ Example C09_replay_after_stop_rejected :
                       LCbExit TSig; LUnlock TSig; LReplayPop; LLock TNet; LCheck TNet; LCbEnter TNet] = None.
 Proof. split; vm_compute; reflexivity. Qed.
 
+Print Assumptions C09_gen_obligation.
+Print Assumptions C09_stop_terminates.
+Print Assumptions C09_stopped_not_stuck.
 Print Assumptions C09_stop_in_callback_final.
 Print Assumptions C09_stop_before_start.
 Print Assumptions C09_no_enter_after_stop.
